@@ -14,6 +14,8 @@ tokens:  A<n>,<hl>,<bl>[,<env>]  accept (recipients 1..n, header/body of hl/bl b
          C commit   B abort   D dispatch   O<letters o|t|p|u per recipient of the attempt>   P panic
          O<add>/a<b>/<c>   the attempt stage by stage at a plain target: AddRcpt per recipient, Body, Commit
          O<add>/n<b…>/<c>  … at a target implementing PartialDelivery: BodyNonAtomic status per ACCEPTED recipient
+           (a stage in which every recipient has the same letter may be spelled <letter>*<count>: `Ot*3000`;
+           `M#<n>;<c>` in a `syn` line = recipients 1..n, each with the stored counter c)
            (the per-recipient errors of the attempt are `deliverErrs`, the model of `Queue.deliver`)
          X<keep>  crash     T<n>;<keep>  crash in the middle of the next write after n bytes      R restart
          Rf<call>,<errno>  restart whose start-up scan meets a transient fault (errno: EMFILE, EIO, EACCES, …; the model
@@ -24,6 +26,12 @@ tokens:  A<n>,<hl>,<bl>[,<env>]  accept (recipients 1..n, header/body of hl/bl b
          L<k>  name of the spool directory (index into the harness's list of unusual but legal names: glob
            metacharacters, spaces, `%`, leading dash, non-ASCII, very long); no choice of the model: the procedures
            address the five files of an id by name, whatever the directory is called
+         Q  `Queue.Close` while the transaction is open (time wheel stopped, the process stays up): no choice of the
+           model (Body / Abort on a stopped queue are the same file operations)
+         K  Commit on the stopped queue returned nil (`commitStopped`: acknowledged, nothing scheduled in this process)
+         G<a>,<e>  size dimension: every recipient address is padded by a bytes, every error text the target returns /
+           the stored meta-data records by e bytes; no choice of the model: the spool model is size-agnostic
+           (`C02_meta_roundtrip_any_size`)
          keep = a (nothing lost) | d (all un-synced data lost) | <h>,<b>,<m>,<n> kept pending bytes per file (a = all)
 `hp` = does `textproto.ReadHeader` accept the header bytes found after the crash (computed by the real code).
 
@@ -75,10 +83,23 @@ def clsOf (c : Char) : Option (Option Cls) :=
   | 'o' => some none | 't' => some (some .temp) | 'p' => some (some .perm) | 'u' => some (some .unspec)
   | _ => none
 
-def lookupErr (rs : List Nat) (cs : List (Option Cls)) (r : Nat) : Option Cls :=
-  match (rs.zip cs).find? (fun p => p.1 == r) with
+def lookupTbl (tbl : List (Nat × Option Cls)) (r : Nat) : Option Cls :=
+  match tbl.find? (fun p => p.1 == r) with
   | some p => p.2
   | none => none
+
+/-- (the table is built once per attempt, not once per look-up: messages with thousands of recipients) -/
+def lookupErr (rs : List Nat) (cs : List (Option Cls)) : Nat → Option Cls :=
+  lookupTbl (rs.zip cs)
+
+/-- A stage in which every recipient has the same letter may be spelled `<letter>*<count>`. -/
+def unrle (s : String) : List Char :=
+  match s.splitOn "*" with
+  | [l, n] =>
+    match l.toList, n.toNat? with
+    | [c], some k => List.replicate k c
+    | _, _ => s.toList
+  | _ => s.toList
 
 def parseKeepNum (s : String) : Option Nat :=
   if s == "a" then some 1000000000 else s.toNat?
@@ -119,6 +140,9 @@ def parseTok (s : St) (t : String) : Option (List Choice) :=
   | 'S' :: rest => (String.ofList rest).toNat?.map (fun _ => [])
   | 'L' :: rest => (String.ofList rest).toNat?.map (fun _ => [])
   | ['C'] => some [.commit]
+  | ['K'] => some [.commitStopped]
+  | ['Q'] => some []
+  | 'G' :: rest => ((String.ofList rest).splitOn ",").mapM String.toNat? |>.map (fun _ => [])
   | ['B'] => some [.abort]
   | ['D'] => some [.dispatch]
   | ['P'] => some [.panic]
@@ -130,23 +154,37 @@ def parseTok (s : St) (t : String) : Option (List Choice) :=
     | .attempting m =>
       match (String.ofList rest).splitOn "/" with
       | [add] =>
-        match add.toList.mapM clsOf with
-        | some cs => if cs.length = m.to.length then some [.outcome (lookupErr m.to cs)] else none
+        match (unrle add).mapM clsOf with
+        | some cs =>
+          if cs.length = m.to.length then
+            let tbl := m.to.zip cs
+            some [.outcome (lookupTbl tbl)]
+          else none
         | none => none
       | [add, body, commit] =>
-        match add.toList.mapM clsOf, body.toList, commit.toList.mapM clsOf with
-        | some cs, k :: bl, some [cm] =>
-          let addE := lookupErr m.to cs
+        match (unrle add).mapM clsOf, body.toList, commit.toList.mapM clsOf with
+        | some cs, k :: bl0, some [cm] =>
+          let bl := unrle (String.ofList bl0)
+          let addT := m.to.zip cs
+          let addE := lookupTbl addT
           let acc := m.to.filter (fun r => (addE r).isNone)
           match bl.mapM clsOf with
           | some bs =>
             if cs.length != m.to.length then none
             else if k == 'a' then
               match bs with
-              | [b] => some [.outcome (deliverErrs m.to ⟨addE, false, b, fun _ => none, cm⟩)]
+              | [b] =>
+                -- `deliverErrs` (`C02_deliverErrs_eq_case`), its branch decided once
+                let sc : Staged := ⟨addE, false, b, fun _ => none, cm⟩
+                let dc := deliverCase m.to sc
+                some [.outcome (errsOfCase sc dc)]
               | _ => none
             else if k == 'n' then
-              if bs.length = acc.length then some [.outcome (deliverErrs m.to ⟨addE, true, none, lookupErr acc bs, cm⟩)]
+              if bs.length = acc.length then
+                let bT := acc.zip bs
+                let sc : Staged := ⟨addE, true, none, lookupTbl bT, cm⟩
+                let dc := deliverCase m.to sc
+                some [.outcome (errsOfCase sc dc)]
               else none
             else none
           | none => none
@@ -167,6 +205,7 @@ def labels (P : Params) (s : St) (c : Choice) (s' : St) : List String :=
   | .op => (match nextOp P s with | some o => [opName o] | none => [])
            ++ (if s'.g.aborted && !s.g.aborted then ["ABT"] else [])
   | .commit => ["ACC"]
+  | .commitStopped => ["ACC"]
   | .dispatch =>
     (match s.pc with | .sched none => ["disp"] | _ => []) ++
     (match s'.pc with
@@ -263,7 +302,15 @@ def parseMetaSpec (c : Codec) (t : String) : Option (Option File) :=
     else if r == "g" then some (some ⟨[], []⟩)
     else match r.splitOn ";" with
       | to :: tr :: env =>
-        match parseNatList to, parseNatList tr, envNull env with
+        -- `M#<n>;<c>`: recipients 1..n, every one with the stored counter c (big meta-data records)
+        let big : Option (List Nat × List Nat) :=
+          if to.startsWith "#" then
+            match (to.drop 1).toString.toNat?, tr.toNat? with
+            | some n, some c => some ((List.range n).map (· + 1), List.replicate n c)
+            | _, _ => none
+          else none
+        match (match big with | some p => some p.1 | none => parseNatList to),
+              (match big with | some p => some p.2 | none => parseNatList tr), envNull env with
         | some to, some tr, some nf =>
           if to.length != tr.length then none
           else some (some ⟨c.ser ⟨to, (to.zip tr).filter (fun p => p.2 != 0), nf⟩, []⟩)
